@@ -12,9 +12,11 @@ from harness.swctext import Expect
 PID = "C16"
 TRANSLATE_ALGO = ["AlgoNode", "AlgoAssemble"]   # regenerated on every run from transforms/branch_tree.py (BranchTreeAssembler.__call__), node.py (detach), tree.py (Node.children)
 DRIVER_FILES = ["SwcVerif/Model/AlgoRunAssemble.lean"]
-LEAN_MODS = ["SwcVerif.Props.C16", "SwcVerif.Props.C16Length", "SwcVerif.Props.C16Pair", "SwcVerif.Props.C16PairLoc", "SwcVerif.Props.C16Asm"]
+LEAN_MODS = ["SwcVerif.Props.C16", "SwcVerif.Props.C16Length", "SwcVerif.Props.C16Pair", "SwcVerif.Props.C16PairLoc", "SwcVerif.Props.C16Asm", "SwcVerif.Props.C16AsmGen"]
 THEOREMS = [
     "C16Asm.machine_eq_sub", "C16Asm.assemble_eq", "C16Asm.assemble_sorted", "C16Asm.assemble_wf", "C16Asm.assemble_length", "C16Asm.branch_is_chain",
+    # the assembler as TRANSLATED from transforms/branch_tree.py on every run (Gen/AlgoAssemble.lean) refines the model
+    "RefineAsm.assemble_refines", "C16Asm.generated_assemble_eq_model", "C16Asm.generated_assemble_wf", "C16Asm.generated_branch_is_chain",
     "C16.cumdist_spec", "C16.linspace_spec", "C16.iso_step_le", "C16.isoPositions_adjust", "C16.isoPositions_zero", "C16.isoPositions_noadjust",
     "C16.interp_endpoints", "C16.interp_on_segment", "C16.convex_between", "C16.isoResample_columns", "C16.linearResample_columns",
     "C16.smooth_endpoints_count", "C16.assemble_keeps_interior",
